@@ -126,8 +126,9 @@ func c18Run(c c18Case) (string, string) {
 type c18Life struct {
 	Users [][]string `json:"users"` // per user thread: sequence of "start" / "stop"
 	// NoHold: the harness does not keep a reference of its own, so the last user's Shutdown can overlap another user's
-	// Start (complete stop and restart included). Restart semantics are outside the statement, so in this mode only the
-	// safety clauses are judged: no panic, no deadlock, no error from a matched Start/Shutdown, no checker left at the end.
+	// Start (complete stop and restart included). Judged in this mode: no panic, no deadlock, no error from a matched
+	// Start/Shutdown, no checker left at the end - and users that are still started at the end are served by a running
+	// checker, also when the limiter had been stopped completely in between.
 	NoHold bool `json:"no_hold,omitempty"`
 	// Refusing: every memory reading is above the hard limit (collections do not help) and the first check has run before
 	// the users start: whatever users start or stop afterwards, the limiter stays in refusing mode - "refusing iff the MOST
@@ -240,8 +241,12 @@ func c18LifeBody(sc *c18Life, o *c18LifeObs) func() {
 		if o.started > 0 {
 			before := o.checks
 			vs.Sleep(3 * time.Second)
-			vs.Point()
-			if o.checks == before && o.fullStops == 0 {
+			// (the ticks have been delivered; the check they trigger has run once nothing else can run - a checker that is merely
+			// not scheduled yet is not a checker that is gone)
+			vs.AwaitQuiescence(nil)
+			// also after a complete stop and a new start (every interleaving of the users' starts and shutdowns): the users that
+			// are started now are protected by a running checker
+			if o.checks == before {
 				o.violations = append(o.violations, fmt.Sprintf("no memory check ran during 3 check intervals although %d users are still started", o.started))
 			}
 			for o.started > 0 {
@@ -387,6 +392,10 @@ func TestVerif(t *testing.T) {
 		{Users: [][]string{{"start", "stop"}, {"start", "stop"}}, NoHold: true},
 		{Users: [][]string{{"start", "stop"}, {"start"}}, Refusing: true},
 		{Users: [][]string{{"start", "stop"}, {"start", "stop"}, {"start", "stop"}}, NoHold: true},
+		// without the harness's own reference and with users that stay: among the interleavings are those in which the limiter
+		// is stopped completely before the staying user starts - it is protected by a running checker all the same
+		{Users: [][]string{{"start", "stop"}, {"start"}}, NoHold: true},
+		{Users: [][]string{{"start", "stop"}, {"start", "stop"}, {"start"}}, NoHold: true},
 	}
 	bound := ctx.Param("bound", 2)
 	var nodes int64
